@@ -930,7 +930,7 @@ def run_c12(ctx):
     lays = layout_variants(order)
     if ctx.quick:
         lays = [c for c in lays if len(c['shape']) >= 2 or len(c['fail']) == 1]
-        lays = [c for k, c in enumerate(lays) if len(c['shape']) >= 2 or k % 2 == 0]    # all >= 2-d ones, half of the others
+        lays = [c for k, c in enumerate(lays) if len(c['shape']) >= 2 or k % 3 == 0]    # all >= 2-d ones, a third of the others
     else:
         lays = lays[::2]                   # (rotations of 7 / 3 layouts: a stride of 2 keeps every layout)
     cases += lays
